@@ -37,6 +37,7 @@ type Oblig struct {
 	nline     int  // number of body lines of the prelude that are in scope
 	relaxed   bool // query without quantified modelling facts
 	candidate bool // Model is a candidate from the relaxed query
+	retried   bool // second pass with a larger budget was made
 	// for replay
 	fn         *ssa.Function
 	clause     *SExpr
